@@ -9,7 +9,7 @@ From Coq Require Import ZArith List Bool Permutation.
 From Batchie Require Import Lib.Sexp Model.Encode Model.Screen Model.Retro Model.Pairwise Model.RetroInit
   Proofs.C11Lib Proofs.C11Select Proofs.C11Holdout Proofs.C13Filter Proofs.C13Optimal Proofs.C13Size
   Proofs.C13NPlate Proofs.C13SampleSeg Proofs.C13Shapes Proofs.C13MergeLib Proofs.C13TopBottom
-  Proofs.C13MergeMin Proofs.C13MergeShapes.
+  Proofs.C13MergeMin Proofs.C13MergeShapes Proofs.C11Init Proofs.C13Sparse Proofs.C13Pairwise.
 Import ListNotations.
 
 (* ---- sample-segregating generator ---- *)
@@ -45,6 +45,26 @@ Proof.
   - exists []. vm_compute. split; [tauto|reflexivity].
 Qed.
 Print Assumptions C13_sample_segregating_shape_refuted.
+
+(* ---- pairwise generator ---- *)
+(* every oracle answer the model accepts (the rng.choice answers for single-agent rows must come from
+   the offered plate names, which numpy guarantees) *)
+Theorem C13_pairwise_single_sample : forall ctrl subset anchor rows ds out ds',
+  generate_plates (GPairwise ctrl subset anchor) rows ds = Ok (out, ds') -> one_sample (unobserved out).
+Proof. exact pairwise_single_sample_w. Qed.
+Print Assumptions C13_pairwise_single_sample.
+
+(* ---- sparse-cover initial plate ---- *)
+(* every sample and every treatment id (None = control) of the screen occurs in an observed row; observed
+   rows are labelled initial_plate and all the others carry one and the same label; nothing else changes *)
+Theorem C13_sparse_cover_covers : forall ctrl reveal rows ds out ds',
+  sparse_cover ctrl reveal rows ds = Ok (out, ds') ->
+  (forall s, In s (sample_names rows) -> exists r, In r out /\ r_mask r = true /\ r_sample r = s) /\
+  (forall t, In t (all_tids ctrl rows) -> exists r, In r out /\ r_mask r = true /\ In t (row_tids ctrl r)) /\
+  (forall r, In r out -> r_plate r = if r_mask r then initial_plate else unobserved_plate) /\
+  map core out = map core rows.
+Proof. exact sparse_cover_covers. Qed.
+Print Assumptions C13_sparse_cover_covers.
 
 (* ---- combination filter ---- *)
 Theorem C13_combo_filter_exact : forall ctrl arity rows out,
@@ -173,6 +193,21 @@ Example C13_topbottom_example :
   option_map (fun r => map r_plate (fst r))
     (match smooth_plates (SMergeTB 1) w_mm [] with Ok r => Some r | Err _ => None end)
   = Some [[1]; [2]; [2]; [2]; [1]; [1]; [1]]%Z.
+Proof. vm_compute. reflexivity. Qed.
+
+(* sparse cover on 3 fully observed rows (samples A, A, B; treatments a+b, a+control, c+b):
+   answers 1, 2 for the samples, then 0 to cover treatment (b... already) - the loop needs no further answer *)
+Definition w_sc : list row :=
+  [ {| r_sample := [65]; r_plate := [112]; r_treats := [([97], 1); ([98], 1)]; r_obs := 1; r_mask := true |};
+    {| r_sample := [65]; r_plate := [112]; r_treats := [([97], 1); ([], 0)]; r_obs := 2; r_mask := true |};
+    {| r_sample := [66]; r_plate := [112]; r_treats := [([99], 1); ([98], 1)]; r_obs := 3; r_mask := true |} ]%Z.
+Example C13_sparse_cover_example :
+  option_map (fun r => (map r_mask (fst r), length (snd r)))
+    (match sparse_cover [] false w_sc [DInts [1]; DInts [2]] with Ok r => Some r | Err _ => None end)
+  = Some ([false; true; true], 0).
+Proof. vm_compute. reflexivity. Qed.
+(* an answer outside the offered array is refused *)
+Example C13_sparse_cover_bad_oracle : sparse_cover [] false w_sc [DInts [2]; DInts [2]] = Err 94%Z.
 Proof. vm_compute. reflexivity. Qed.
 
 (* the repaired logic on the same witnesses *)
